@@ -128,6 +128,36 @@ pub fn c10(ctx: &mut Ctx) {
             sdes_case(&img, l);
         });
     }
+    // iterator call histories on chunks() and items() of the SDES members of the base set
+    {
+        let depth = ctx.tier.pick(3u32, 4u32);
+        let bases: Vec<Vec<u8>> = gens::base_set().iter().filter(|p| matches!(p, Pkt::Sdes { .. })).map(wire::encode).collect();
+        ctx.bound("iterator histories", format!("Sdes::chunks and SdesChunk::items of the {} SDES packets of the base set: all call sequences of length <= {} over {{next, nth(0), nth(1), nth(2), nth(7), take(2).count()}} x 4 endings", bases.len(), depth));
+        ctx.run_space("iterator-histories", bases.len() as u64, |idx, l| {
+            let img = &bases[idx as usize];
+            l.evals += 1;
+            l.sample(|| format!("iterator histories on {}", hex_short(img)));
+            l.nontrivial(crate::engine::run::fp_combine(fp_bytes(img), 0x17E4));
+            let show = || hex_short(img);
+            let r = guard::catch(|| -> Result<(), String> {
+                use super::common::{iterator_histories, iterator_reference};
+                let sd = Sdes::parse(img).map_err(|e| format!("{:?}", e))?;
+                let reference = iterator_reference(sd.chunks(), img.len());
+                iterator_histories(l, "Sdes::chunks", &|| sd.chunks(), &reference, depth, &show);
+                for c in sd.chunks().take(img.len()) {
+                    let reference = iterator_reference(c.items(), img.len());
+                    iterator_histories(l, "SdesChunk::items", &|| c.items(), &reference, depth, &show);
+                }
+                Ok(())
+            });
+            match r {
+                Err(pi) => l.subject_panic("iterator-history", &pi, show),
+                Ok(Err(m)) => l.violation("iterator-history:setup", show, || m),
+                Ok(Ok(())) => {}
+            }
+        });
+        ctx.require_hit("iterator history agrees with repeated next()");
+    }
     ctx.require_hit("class: must-accept");
     ctx.require_hit("class: must-reject");
     ctx.require_hit("class: either");
